@@ -75,15 +75,21 @@ class Inconclusive(Exception):
     pass
 
 
+_BLOCKS = {}
+_RECORDS = 1 << 17          # 1 MiB of 8-byte records per tag before the content repeats
+
+
 def pattern(tag, start, n):
-    """n bytes of content that is unique per (tag, offset): 8-byte records 'tNNNNNN;'."""
-    out = bytearray()
-    first = start // 8
-    last = (start + n + 7) // 8
-    for i in range(first, last + 1):
-        out += b'%s%06d;' % (tag, i % 1000000)
-    off = start - first * 8
-    return bytes(out[off:off + n])
+    """n bytes of a stream whose content is unique per (tag, offset): 8-byte records 'tNNNNNN;'."""
+    blk = _BLOCKS.get(tag)
+    if blk is None:
+        blk = _BLOCKS[tag] = b''.join(b'%s%06d;' % (tag, i) for i in range(_RECORDS))
+    size = len(blk)
+    off = start % size
+    out = blk[off:off + n]
+    while len(out) < n:
+        out += blk[:n - len(out)]
+    return out
 
 
 class Conn:
@@ -98,13 +104,14 @@ class Conn:
 
 
 class World:
-    def __init__(self, case, skip_late=False, reuse_fds=False, skip_swrite=False):
+    def __init__(self, case, skip_late=False, reuse_fds=False, skip_swrite=False, name_holders=True):
         from circuits import BaseComponent, handler
         from circuits.core import pollers
         self.case = case
         self.skip_late = skip_late
         self.reuse_fds = reuse_fds
         self.skip_swrite = skip_swrite
+        self.name_holders = name_holders
         self.gave_up = False
         self.marks = set()
         self.conns = []          # Conn per server-side socket object, in order of first sighting
@@ -256,6 +263,7 @@ class ServerWorld(World):
         self.swritten = {}    # p -> bytes the server was asked to write while the connection was live
         self.late_targets = set()
         self.live_writes = set()
+        self.pre_late_scan = {}
         self.late_ops = []
         self.closed_by_server = set()
         self.quiet_step()
@@ -298,6 +306,11 @@ class ServerWorld(World):
         s = c.ref()
         late = self.disconnected(c) or s is None or s.fileno() < 0
         if late:
+            if idx not in self.pre_late_scan and s is not None:
+                # what is left of the socket *before* the first late event reaches the server (handlers are atomic with
+                # respect to this observer call): whatever the final scan finds beyond this was caused by late events
+                from vlib.residue import scan
+                self.pre_late_scan[idx] = [tuple(f) for f in scan(self.root, s)]
             self.marks.add('late_write' if kind == 'swrite' else 'late_close')
             if not self.disconnected(c):
                 self.marks.add('late_event_before_disconnect_was_dispatched')
@@ -534,7 +547,7 @@ class ServerWorld(World):
             self.marks.add('weakref_checked')
             obj = r()
             alive = obj is not None
-            who = holders(obj, ignore=[refs]) if alive else []
+            who = holders(obj, ignore=[refs]) if alive and self.name_holders else []
             obj = None
             found = scans.get(c.index, [])
             late = c.index in self.late_targets
@@ -551,15 +564,17 @@ class ServerWorld(World):
 
     def classify(self, found, late, c):
         """Split the places a socket was found in by mechanism (used for the known-finding attribution only;
-        the verdict that something was found does not depend on it)."""
+        the verdict that something was found does not depend on it).  Late events are charged with exactly what
+        appeared after the first of them was dispatched."""
         out = {}
         wrote = c.index in self.live_writes
+        before = self.pre_late_scan.get(c.index) if late else None
         for f in found:
             f = tuple(f)
-            if f == ('EPoll', '_map', 'value') and self.case['poller'] == 'EPoll':
-                tag = 'epoll-map'
-            elif late:
+            if before is not None and f not in before:
                 tag = 'late-op'
+            elif f == ('EPoll', '_map', 'value') and self.case['poller'] == 'EPoll':
+                tag = 'epoll-map'
             elif f[1:] == ('_buffers', 'key') and wrote and any(n == 'error' for n, _ in c.events):
                 tag = 'write-failed'
             else:
@@ -585,17 +600,14 @@ class ServerWorld(World):
                 hi.settimeout(5)
                 hi.connect(self.addr)
                 extra.append(hi)
+                self.kernel_pending(20)         # returns as soon as the listener is readable
                 for _ in range(3):
-                    self.kernel_pending(20)
-                    self.root.tick(0)
                     self.root.tick(0)
         finally:
             for s in extra:
                 s.close()
-            for _ in range(4):
-                self.kernel_pending(20)
-                for _ in range(6):
-                    self.root.tick(0)
+            for _ in range(8):
+                self.root.tick(0)
             self.observing = True
 
     def teardown(self):
@@ -666,6 +678,7 @@ class ClientWorld(World):
         super().__init__(case, **kw)
         from circuits.net.sockets import TCPClient
         self.listener = socket.socket(socket.AF_INET, socket.SOCK_STREAM)
+        self.listener.setsockopt(socket.SOL_SOCKET, socket.SO_RCVBUF, SMALL)     # inherited by the accepted sockets
         self.listener.bind(('127.0.0.1', 0))
         self.listener.listen(16)
         self.listener.setblocking(False)
@@ -778,7 +791,7 @@ class ClientWorld(World):
         elif kind == 'cwrite':
             if self.state(i) != 'connected':
                 return
-            self.fire(nev.write(pattern(b'C', self.cwritten[i], op[2])), i)
+            self.fire(nev.write(b'C' * op[2]), i)
             self.cwritten[i] += op[2]
             self.wait(lambda: False, hard=False)
         elif kind == 'hdrain':
@@ -925,8 +938,8 @@ def corpus():
         ('c-peer-close-and-local-close-same-tick', 1, [[CC, 0], [HS, 0, 5], [HC, 0, 'nw'], [CX, 0]]),
         ('c-peer-abort-and-local-close-same-tick', 1, [[CC, 0], [HA, 0, 'nw'], [CX, 0]]),
         ('c-reconnect', 2, [[CC, 0], [CC, 1], [HS, 0, 5], [HC, 0], [CC, 0], [HS, 0, 7], [CX, 0], [CC, 0], [HA, 0], [HA, 1]]),
-        ('c-close-while-buffered', 1, [[CC, 0], [CW, 0, 3000000], [CX, 0], [HD, 0], [HD, 0], [HD, 0], [HD, 0], [HC, 0]]),
-        ('c-close-while-buffered-peer-abort', 1, [[CC, 0], [CW, 0, 3000000], [CX, 0], [HA, 0]]),
+        ('c-close-while-buffered', 1, [[CC, 0], [CW, 0, 8000000], [CX, 0], [HD, 0], [HD, 0], [HD, 0], [HD, 0], [HC, 0]]),
+        ('c-close-while-buffered-peer-abort', 1, [[CC, 0], [CW, 0, 8000000], [CX, 0], [HA, 0]]),
         ('c-write-then-peer-close', 1, [[CC, 0], [CW, 0, 100], [HC, 0, 'nw'], [CW, 0, 100], [CW, 0, 100]]),
     ]
     for name, n, ops in chs:
@@ -1015,7 +1028,7 @@ def gen_client_case(rng, poller=None):
         elif r < 0.9:
             ops.append(['cclose', i] + nw)
         elif r < 0.97:
-            ops.append(['cwrite', i, rng.choice([10, 1000, 3000000])])
+            ops.append(['cwrite', i, rng.choice([10, 1000, 8000000])])
         else:
             ops.append(['hdrain', i])
     return {'side': 'client', 'poller': poller or rng.choice(POLLERS), 'clients': n, 'ops': ops}
@@ -1049,7 +1062,7 @@ def explained(case, kw, must_be_gone):
     neutralised.  True iff no failure carrying a neutralised mechanism remains and whatever else remains
     is made of known mechanisms only and is, in turn, explained by neutralising those as well."""
     try:
-        problems, _ = run_case(case, **kw)
+        problems, _ = run_case(case, name_holders=False, **kw)
     except Inconclusive:
         return False
     parts = set()
